@@ -92,8 +92,12 @@ def handle (line : String) : String :=
           let (g, w) := nlEdges (fun c => !ne.contains c) (drop != 0) es [] []
           -- specification: the cut graph
           let loops := nlLoops g 255
-          let keys := (List.range 256).filter (fun c => !(nlGet g c).isEmpty)
-          let chains := keys.map fun c => let ch := nlGet g c; ((c : Int) :: (ch.length : Int) :: ch.map Int.ofNat)
+          -- `nlGetFast g (cutList g) = nlGet g` (`nlGetFast_eq`): the cut graph is computed once
+          let cl := cutList g
+          let allChains := (List.range 256).map fun c => (c, nlGetFast g cl c)
+          let keyed := allChains.filter (fun p => !p.2.isEmpty)
+          let keys := keyed.map Prod.fst
+          let chains := keyed.map fun (c, ch) => ((c : Int) :: (ch.length : Int) :: ch.map Int.ofNat)
           -- model: the transcription of `new`/`get`, ascending and descending iteration order
           let nodes := nodesOf g
           let asc := (List.range 256).filter (fun c => nodes.contains c)
@@ -102,9 +106,9 @@ def handle (line : String) : String :=
             | .panic => "panic"
             | .fuel => "fuel"
             | .ok (p, lw) =>
-              let ks := (List.range 256).filter (fun c => !(progGet p c).isEmpty)
-              let chs := ks.map fun c => let ch := progGet p c; ((c : Int) :: (ch.length : Int) :: ch.map Int.ofNat)
-              s!"{showPairs (natPairs lw)} ; {showInts ((ks.length : Int) :: chs.flatten)}"
+              let all := ((List.range 256).map fun c => (c, progGet p c)).filter (fun q => !q.2.isEmpty)
+              let chs := all.map fun (c, ch) => ((c : Int) :: (ch.length : Int) :: ch.map Int.ofNat)
+              s!"{showPairs (natPairs lw)} ; {showInts ((all.length : Int) :: chs.flatten)}"
           let t1 := showT (nlCompile g asc)
           let t2 := showT (nlCompile g asc.reverse)
           s!"{showPairs (natPairs w)} ; {showPairs (natPairs loops)} ; {showInts ((keys.length : Int) :: chains.flatten)} | {t1} | {b2i (t1 == t2)}"
